@@ -213,7 +213,7 @@ theorem calls_step (h : Inv s) (hs : step s t x = some s') :
   have h4 := h.owns (s.leader c)
   close_step hs
 
-set_option maxHeartbeats 1000000 in
+set_option maxHeartbeats 400000 in
 theorem waits_step (h : Inv s) (hs : step s t x = some s') :
     ∀ u, (s'.pc u).waits = true → s'.reg u < s'.next ∧ s'.ekey (s'.reg u) = s'.key u
               ∧ before (s'.inv u) (s'.lret (s'.reg u)) ∧ published s' (s'.reg u) := by
